@@ -1,16 +1,25 @@
 ---- MODULE AtomicIntrusiveListMC ----
-EXTENDS AtomicIntrusiveList
+EXTENDS AtomicIntrusiveListRef
+\* ---- mutex family: list 0 only (push_back / pop_front / try_remove / empty)
 \* 1: item 1 is pushed; then thread 1 pushes item 2 while thread 2 removes item 1 (cancellation of the last node)
-P1 == <<  << <<"push", 1>>, <<"push", 2>> >>,  << <<"remove", 1>> >>, << >>  >>
+P1 == <<  << <<"push", 1>>, <<"push", 2>> >>,  << <<"remove", 1>> >>, << <<"empty", 0>> >>  >>
 \* 2: thread 1 pushes 1 then 2; thread 2 pops (unlock hands the lock to the first waiter)
 P2 == <<  << <<"push", 1>>, <<"push", 2>> >>,  << <<"pop", 0>> >>, << >>  >>
 \* 3: three threads: pushes, pops and a removal racing
 P3 == <<  << <<"push", 1>>, <<"push", 2>> >>,  << <<"push", 3>>, <<"pop", 0>> >>, << <<"remove", 1>>, <<"pop", 0>> >>  >>
 \* 4: pop racing with removal of the same (only) item, then a push
-P4 == <<  << <<"push", 1>>, <<"remove", 1>>, <<"push", 2>> >>,  << <<"pop", 0>>, <<"pop", 0>> >>, << >>  >>
+P4 == <<  << <<"push", 1>>, <<"remove", 1>>, <<"push", 2>> >>,  << <<"pop", 0>>, <<"pop", 0>> >>, << <<"empty", 0>>, <<"empty", 0>> >>  >>
 \* 5: two removals of neighbours racing with a pop
 P5 == <<  << <<"push", 1>>, <<"push", 2>>, <<"push", 3>>, <<"remove", 2>> >>,  << <<"remove", 3>> >>, << <<"pop", 0>> >>  >>
-Small == {P1, P2, P4}
-All == {P1, P2, P3, P4, P5}
+\* 6: pop / try_remove of the only item observed by empty()
+P6 == <<  << <<"push", 1>>, <<"remove", 1>>, <<"empty", 0>> >>,  << <<"pop", 0>>, <<"empty", 0>> >>, << <<"empty", 0>>, <<"push", 2>>, <<"empty", 0>> >>  >>
+\* ---- latch family (v2 manual reset event): push_front_unless_latched / latch_and_drain into a local list / pop_front
+\*      of the local list / try_remove from whichever list holds the item / unlatch / is_latched
+Q1 == <<  << <<"pfront", 1>>, <<"pfront", 2>>, <<"remove", 1>> >>,  << <<"drain", 1>>, <<"pop", 1>>, <<"pop", 1>>, <<"pop", 1>> >>,  << <<"islatched", 0>>, <<"islatched", 0>> >>  >>
+Q2 == <<  << <<"pfront", 1>>, <<"remove", 1>> >>,  << <<"drain", 1>>, <<"pop", 1>> >>,  << <<"drain", 2>>, <<"pop", 2>>, <<"unlatch", 0>>, <<"pfront", 2>> >>  >>
+Q3 == <<  << <<"pfront", 1>>, <<"pfront", 2>>, <<"remove", 2>> >>,  << <<"drain", 1>>, <<"pop", 1>>, <<"pop", 1>>, <<"unlatch", 0>> >>,  << <<"pfront", 3>>, <<"islatched", 0>>, <<"remove", 3>> >>  >>
+Q4 == <<  << <<"pfront", 1>>, <<"remove", 1>>, <<"pfront", 2>>, <<"remove", 2>> >>,  << <<"drain", 1>>, <<"pop", 1>>, <<"pop", 1>> >>,  << <<"unlatch", 0>>, <<"islatched", 0>>, <<"drain", 2>>, <<"pop", 2>> >>  >>
+Small == {P1, P2, P4, Q2}
+All == {P1, P2, P3, P4, P5, P6, Q1, Q2, Q3, Q4}
 KillSet == {P2}
 ====
